@@ -14,6 +14,9 @@ package main
 //	(5,0) activeCall close     CompareAndSwapInt32(&c.activeCall, x, x|1)
 //	(6,0) handshakeFn runs     c.handshakeFn(ctx)
 //	(7,0) input consumed       c.input.Read / copy(b, c.readBuf) / copy(p, plaintext) (tlcp/dtlcp)
+//	(8,0) transport close      c.conn.Close() / c.pconn.Close()
+//	(9,0) transport read       c.rawInput.ReadFrom(…) in readFromUntil / c.pconn.ReadFrom (may park the
+//	                           goroutine until the peer sends or the transport is closed)
 //
 // The walk is flow-insensitive: statements in source order, both arms of every conditional,
 // loop bodies once, callees inline (receiver types are resolved syntactically: receiver
@@ -328,6 +331,16 @@ func (w *lockWalker) callEvent(ce *ast.CallExpr, env map[string]string) (lockEv,
 		if strings.HasSuffix(x, ".input") && se.Sel.Name == "Read" {
 			return lockEv{7, 0}, true
 		}
+		if (strings.HasSuffix(x, ".conn") || strings.HasSuffix(x, ".pconn")) && se.Sel.Name == "Close" && len(ce.Args) == 0 {
+			if _, isPkg := p.types[w.typeOf(se.X, env)]; !isPkg {
+				return lockEv{8, 0}, true
+			}
+		}
+		if (strings.HasSuffix(x, ".rawInput") && se.Sel.Name == "ReadFrom") || (strings.HasSuffix(x, ".pconn") && se.Sel.Name == "ReadFrom") {
+			if _, isPkg := p.types[w.typeOf(se.X, env)]; !isPkg {
+				return lockEv{9, 0}, true
+			}
+		}
 	}
 	return lockEv{}, false
 }
@@ -548,7 +561,7 @@ func stmtIndex(p *pkg, body []ast.Stmt, f func(src string, st ast.Stmt) bool) in
 func emitLocks(e *emitter, p *pkg) {
 	w := newLockWalker(p)
 	w.computeTouches()
-	e.comment("lock protocol (facts_locks.go): events (kind, mutex) kind 0 acquire 1 release 2 transport-write 3 activeCall+2 4 activeCall-2 5 activeCall|1 6 handshakeFn 7 input-consumed")
+	e.comment("lock protocol (facts_locks.go): events (kind, mutex) kind 0 acquire 1 release 2 transport-write 3 activeCall+2 4 activeCall-2 5 activeCall|1 6 handshakeFn 7 input-consumed 8 transport-close 9 transport-read")
 	var api []string
 	type prog struct {
 		Name   string
@@ -618,6 +631,40 @@ func emitLocks(e *emitter, p *pkg) {
 			}
 		}
 		e.strList("wrappedAccessUnlocked", unlocked)
+		// detect(): `c.lock.Lock(); defer c.lock.Unlock(); if c.wrapped != nil { return nil }` before anything else
+		// (second half of the double-checked first use: callers test wrapped, RELEASE the lock, then call detect)
+		db := body(p, "ProtocolSwitchServerConn.detect")
+		recheck := false
+		if _, locked := lockedFirst(p, "ProtocolSwitchServerConn.detect"); locked && len(db) >= 3 {
+			if is, ok := db[2].(*ast.IfStmt); ok && is.Init == nil && is.Else == nil && p.src(is.Cond) == "c.wrapped != nil" &&
+				len(is.Body.List) == 1 && p.src(is.Body.List[0]) == "return nil" {
+				recheck = true
+			}
+		}
+		e.boolean("detectRechecksUnderLock", recheck)
+		// who assigns c.wrapped
+		var writers []string
+		for _, key := range keys {
+			fd := p.funcs[key]
+			if fd == nil || fd.Body == nil {
+				continue
+			}
+			found := false
+			ast.Inspect(fd.Body, func(n ast.Node) bool {
+				if as, ok := n.(*ast.AssignStmt); ok {
+					for _, l := range as.Lhs {
+						if p.src(l) == "c.wrapped" {
+							found = true
+						}
+					}
+				}
+				return true
+			})
+			if found {
+				writers = append(writers, key[strings.Index(key, ".")+1:])
+			}
+		}
+		e.strList("wrappedWriters", writers)
 		return
 	}
 
@@ -701,6 +748,17 @@ func emitLocks(e *emitter, p *pkg) {
 		break
 	}
 	e.boolean("activeCallCloseSetsBitOnce", closeOK)
+	// tlcp: `if x != 0 { … return c.conn.Close() }` right after the loop: with a Write-like call in flight
+	// (which may hold `out` while parked in a transport write) Close goes straight to the transport
+	skip := false
+	for _, st := range body(p, "Conn.Close") {
+		if is, ok := st.(*ast.IfStmt); ok && is.Init == nil && p.src(is.Cond) == "x != 0" && len(is.Body.List) >= 1 {
+			if p.src(is.Body.List[len(is.Body.List)-1]) == "return c.conn.Close()" {
+				skip = true
+			}
+		}
+	}
+	e.boolean("closeSkipsNotifyWhenCallInFlight", skip)
 
 	// Close wipes c.workKey only between c.workKeyMu.Lock() and c.workKeyMu.Unlock(), and every
 	// establishKeys (which stores the key block and copies the keys out of it) holds workKeyMu
